@@ -507,3 +507,23 @@ mutant("C06-M30", "C06", "R06h", "framework limits swapped", M, "Population.buil
 twin("C06-T6", "C06", "per-step clip written with the comparison turned round", M, "Parameter.constrain", "if self.vals[ti] < self.limits[0]:", "if self.limits[0] > self.vals[ti]:")
 twin("C06-T7", "C06", "interp result bound to a local first is not accepted by the exact-return rule: instead check keyword order", U, "TimeSeries.interpolate", "return np.interp(t2, t1, v1, left=v1[0], right=v1[-1])", "return np.interp(t2, t1, v1, right=v1[-1], left=v1[0])")
 twin("C06-T8", "C06", "np.interp result bound to a local, then returned", U, "TimeSeries.interpolate", "return np.interp(t2, t1, v1, left=v1[0], right=v1[-1])", "out = np.interp(t2, t1, v1, left=v1[0], right=v1[-1])\n                return out")
+
+# ---- R20f / R20g
+reintro("C20-M11", "C20", "R20g", "00b0676", "weighted population average masked on the numerator with a NaN fill")
+mutant("C20-M12", "C20", "R20f", "population average divides by the number of outputs", PL, "PlotData.__init__", "vals /= len(pop_labels)", "vals /= len(outputs)")
+mutant("C20-M13", "C20", "R20f", "weighted output average: denominator sums the population sizes", PL, "PlotData.__init__", "aggregated_outputs[pop_label][output_name] /= sum([compsize[x] for x in labels])", "aggregated_outputs[pop_label][output_name] /= sum([popsize[x] for x in popsize])")
+mutant("C20-M14", "C20", "R20f", "sum over populations skips the first population", PL, "PlotData.__init__", "vals = sum(aggregated_outputs[x][output_name] for x in pop_labels)  # Add together all the outputs\n                        elif pop_method == \"average\":", "vals = sum(aggregated_outputs[x][output_name] for x in pop_labels[1:])\n                        elif pop_method == \"average\":")
+mutant("C20-M15", "C20", "R20f", "weighted numerator weights by the wrong mapping", PL, "PlotData.__init__", "numerator = sum(aggregated_outputs[x][output_name] * popsize[x] for x in pop_labels)", "numerator = sum(aggregated_outputs[x][output_name] * popsize[pop_labels[0]] for x in pop_labels)")
+twin("C20-T4", "C20", "average written as one expression", PL, "PlotData.__init__", "vals = sum(aggregated_outputs[x][output_name] for x in pop_labels)  # Add together all the outputs\n                            vals /= len(pop_labels)", "vals = sum(aggregated_outputs[x][output_name] for x in pop_labels) / len(pop_labels)")
+twin("C20-T5", "C20", "weighted quotient masked with `denominator > 0`", PL, "PlotData.__init__", "where=denominator != 0", "where=denominator > 0")
+
+# ---- rules added after round 4 (second seeded change per property)
+mutant("C03-M20", "C03", "R03d", "aggregation weights are a view of the model's interaction array on the TGT path", M, "Model.update_pars", "weights = self.interactions[pars[0].pop_aggregation[2]][:, :, ti].copy()", "weights = self.interactions[pars[0].pop_aggregation[2]][:, :, ti]")
+twin("C03-T6", "C03", "copy taken with np.array(...)", M, "Model.update_pars", "weights = self.interactions[pars[0].pop_aggregation[2]][:, :, ti].copy()", "weights = np.array(self.interactions[pars[0].pop_aggregation[2]][:, :, ti])")
+mutant("C07-M20", "C07", "R07d", "zero test applied to the quotient", M, "Characteristic.vals", "                vals_zero = vals < model_settings[\"tolerance\"]\n                vals[denom > 0] /= denom[denom > 0]\n", "                vals[denom > 0] /= denom[denom > 0]\n                vals_zero = vals < model_settings[\"tolerance\"]\n")
+mutant("C04-M20", "C04", "R04b", "junction graph edges from proportion parameters' links", M, "Model._set_exec_order", "                    for link in comp.outlinks:\n                        if isinstance(link.dest, JunctionCompartment):\n                            G.add_edge(link.source, link.dest)", "                    for par in pop.pars:\n                        for link in par.links:\n                            if isinstance(link.dest, JunctionCompartment) and link.source is comp:\n                                G.add_edge(link.source, link.dest)")
+mutant("C04-M21", "C04", "R04b", "junction graph skips residual junctions", M, "Model._set_exec_order", "                        if isinstance(link.dest, JunctionCompartment):\n                            G.add_edge(link.source, link.dest)", "                        if isinstance(link.dest, JunctionCompartment) and link.parameter is not None:\n                            G.add_edge(link.source, link.dest)")
+twin("C04-T6", "C04", "junction graph built from inlinks", M, "Model._set_exec_order", "                    for link in comp.outlinks:\n                        if isinstance(link.dest, JunctionCompartment):\n                            G.add_edge(link.source, link.dest)", "                    for link in comp.inlinks:\n                        if isinstance(link.source, JunctionCompartment):\n                            G.add_edge(link.source, link.dest)")
+mutant("C05-M20", "C05", "R05g", "residual junction built without its duration group", M, "Population.build", 'ResidualJunctionCompartment(pop=self, name=comp_name, duration_group=comps.at[comp_name, "duration group"])', "ResidualJunctionCompartment(pop=self, name=comp_name)")
+mutant("C05-M21", "C05", "R05g", "timed compartment bound to the wrong parameter", M, "Population.build", 'parameter=self.par_lookup[comps.at[comp_name, "duration group"]]', "parameter=self.pars[0]")
+twin("C05-T6", "C05", "duration group cell hoisted into a local", M, "Population.build", 'self.comps.append(JunctionCompartment(pop=self, name=comp_name, duration_group=comps.at[comp_name, "duration group"]))', 'dg = comps.at[comp_name, "duration group"]\n                    self.comps.append(JunctionCompartment(pop=self, name=comp_name, duration_group=dg))')
